@@ -138,10 +138,12 @@ func Describe(ops []Op) []string {
 
 // StyleHandlers are harness-owned value handlers for MatchingHandler.
 var StyleHandlers = map[string]func(string) bool{
-	"short":    func(v string) bool { return len(v) > 0 && len(v) <= 8 && !strings.ContainsAny(v, "<>\\()\"'&;:") },
-	"digits":   func(v string) bool { return v != "" && strings.Trim(v, "0123456789") == "" },
-	"never":    func(v string) bool { return false },
-	"has-safe": func(v string) bool { return strings.HasPrefix(v, "safe-") && strings.Trim(v[5:], "abcdefghijklmnopqrstuvwxyz") == "" },
+	"short":  func(v string) bool { return len(v) > 0 && len(v) <= 8 && !strings.ContainsAny(v, "<>\\()\"'&;:") },
+	"digits": func(v string) bool { return v != "" && strings.Trim(v, "0123456789") == "" },
+	"never":  func(v string) bool { return false },
+	"has-safe": func(v string) bool {
+		return strings.HasPrefix(v, "safe-") && strings.Trim(v[5:], "abcdefghijklmnopqrstuvwxyz") == ""
+	},
 }
 
 // URLChecks are harness-owned custom URL policies.
@@ -407,9 +409,9 @@ type Spec struct {
 	Rewriter   string
 
 	NoFollow, NoFollowFQ, NoReferrer, NoReferrerFQ, TargetBlank bool
-	CrossOrigin, AddSpaces, DataAttrs, Comments              bool
-	Sandbox                                                   map[string]bool // nil: option off
-	Skip                                                      map[string]bool
+	CrossOrigin, AddSpaces, DataAttrs, Comments                 bool
+	Sandbox                                                     map[string]bool // nil: option off
+	Skip                                                        map[string]bool
 }
 
 // DefaultBare is the documented table of elements that are meaningful without
